@@ -219,7 +219,9 @@ theorem step_ids {b b' : Builder} (t : Token) (ha : AccInv b) (h : IdInv b) (hr 
       unfold Builder.prefix at hp
       split at hp
       · cases hp
-      · dsimp only at hp
+      · split at hp
+        · cases hp
+        dsimp only at hp
         split at hp
         · cases hp
         · split at hp
@@ -295,13 +297,17 @@ theorem step_ids {b b' : Builder} (t : Token) (ha : AccInv b) (h : IdInv b) (hr 
   | comment t sp =>
     simp only [Builder.step, Builder.comment, Step.ok.injEq] at hr
     subst hr
-    obtain ⟨e1, e2⟩ := addLeaf_ids b (.comment t.text) rfl
+    obtain ⟨e1, e2⟩ := addLeaf_ids b (.comment (normalizeLineEnds t.text)) rfl
     exact h.of_perm (by simp only [e1]; exact List.Perm.refl _) e2
   | pi target content sp =>
-    simp only [Builder.step, Builder.processingInstruction, Step.ok.injEq] at hr
+    simp only [Builder.step] at hr
+    split at hr
+    · cases hr
+    simp only [Builder.processingInstruction, Step.ok.injEq] at hr
     subst hr
     obtain ⟨e1, e2⟩ := addLeaf_ids { b with env := (b.env.internName target.text Env.noNamespace).1 }
-      (.pi (b.env.internName target.text Env.noNamespace).2 (content.map fun c => c.text)) rfl
+      (.pi (b.env.internName target.text Env.noNamespace).2
+        (content.map fun c => normalizeLineEnds c.text)) rfl
     exact h.of_perm (by simp only [e1]; exact List.Perm.refl _) e2
   | declaration v e s sp =>
     simp only [Builder.step] at hr
